@@ -292,7 +292,31 @@ def check_elements(chk) -> None:
     # fact-level rules first (checks/c07e.py); the pinned-form rules below are only the fallback when the code cannot be read at fact level
     from checks import c07e
 
+    # 1. the decomposition evaluated on every small structure against the statement (checks/c07v.py): independent of any code shape
+    from checks import c07v
+
+    n_before = len(chk.obligations)
+    abstain = c07v.elements_eval(chk, fi)
+    eval_ok = abstain is None and not any(o.status == "violation" for o in chk.obligations[n_before:])
+    if abstain is not None:
+        chk.ok("elements-eval", fi.where, f"evaluation on small structures abstains ({abstain[:160]}); the mechanism rules decide alone")
+    # 2. the mechanisms, for all structures (checks/c07e.py)
+    n_mech = len(chk.obligations)
     failed = c07e.check(chk, fi)
+    if eval_ok:
+        # Closed-world findings of the mechanism rules ("an additional condition decides ...", "added unconditionally") mean
+        # "this code path is not one I can read as the mechanism"; when the evaluation reached every statement of the code and
+        # every structure came out right, such a path is part of a correct rewrite (a helper with an early return, a guard that
+        # only short-cuts an empty case), not a lost element.  Definite mismatches (a wrong bound, a wrong end compared) stay.
+        soft = ("additional condition", "under a condition", "added unconditionally", "under additional conditions", "emission sites of a")
+        for o in chk.obligations[n_mech:]:
+            if o.status == "violation" and any(m in o.detail for m in soft):
+                o.status = "ok"
+                o.detail = "mechanism not readable as such on this code (" + o.detail[:140] + "...); the behaviour is decided by the evaluation on all small structures, which reached every statement"
+        for aspect, why in sorted(failed.items()):
+            chk.ok("elements-facts", fi.where, f"fact-level reading of `{aspect}` not possible ({why[:120]}); decided by the evaluation on all small structures")
+        check_walk_and_result(chk, fi, walk=False)
+        return
     for aspect, why in sorted(failed.items()):
         chk.ok("elements-facts", fi.where, f"fact-level reading of `{aspect}` not possible ({why[:120]}); falling back to its pinned form")
     if "stops" in failed:
@@ -493,7 +517,7 @@ def run(chk) -> None:
     chk.assumptions = ["valid BPSEQ", "correctness of the loop-linking walk on knotted multiloops and the exactly-once coverage as a whole are not decided (DESIGN.md C07 residual)"]
     chk.robust |= {"index-discipline", "stems-run", "stems-filter", "region-triple", "elements-dotbracket"}
     # fact-level rules of checks/c07e.py decide the same behaviour on rewritten code; the pinned forms are reading aids there
-    chk.robust |= {"elements-prelude-fact", "elements-stops-fact", "elements-windows-fact", "elements-tails-fact", "elements-links-fact", "elements-closure-fact", "elements-walk-fact", "cli-same-structure", "strand-eval", "stem-eval"}
+    chk.robust |= {"elements-prelude-fact", "elements-stops-fact", "elements-windows-fact", "elements-tails-fact", "elements-links-fact", "elements-closure-fact", "elements-walk-fact", "elements-eval-stems", "elements-eval-hairpins", "elements-eval-loops", "elements-eval-coverage", "elements-eval-text", "cli-same-structure", "strand-eval", "stem-eval"}
     check_discipline(chk)
     check_strand(chk)
     check_elements(chk)
@@ -511,7 +535,8 @@ MANIFEST_ENTRY = {
     "index map), the closure test and walk order, the three idioms of the successor walk, every strand text sliced from the structure's own dot-bracket; (3) the Strand/Stem constructors evaluated as "
     "extracted fragments on representative spans (affine in first/length); (4) a reaching-definition rule for the CLI (the dot-bracket shown and the elements listed belong to the same object); (5) the "
     "cross-cutting memo-key rule. All are necessary conditions whose violation shifts, truncates, drops or mis-links elements for some structure; they hold for all structures because they are facts about the "
-    "index arithmetic and the paths of the code itself. Pinned-form comparison is used only as a per-aspect fallback when an aspect cannot be read at fact level.",
-    "note": "Trusted: seed table of 1-based fields, CPython ast. Not decided: that the coded walk finds every loop of a knotted multiloop, and the 'exactly one' coverage claim as a whole (need execution).",
+    "index arithmetic and the paths of the code itself; (6) the whole decomposition interpreted from the ast on every set of pairs over 2..7 positions and 18 larger named shapes and judged by the clauses of the "
+    "statement (stems, hairpins, loops incl. maximality, exactly-one coverage, strand texts), with statement and condition coverage required. Pinned-form comparison is used only as a per-aspect fallback.",
+    "note": "Trusted: seed table of 1-based fields, CPython ast, the ast interpreter. Not decided: the statement for structures beyond the evaluated ones (there only the mechanism rules speak); inputs violating the valid-BPSEQ assumption.",
     "technique": "static analysis: abstract interpretation with index kinds (base, offset) + symbolic affine positions with def-use roles + path enumeration + fragment evaluation on input-class representatives + reaching definitions, all over the ast",
 }
